@@ -15,4 +15,6 @@ for be in dashu malachite num_bigint; do
 done
 step cargo build --offline --release -p vmon --no-default-features --features b_ibig --target-dir "$H/target/nopar"
 RUSTFLAGS="-Zsanitizer=thread" step cargo +nightly build --offline --release -Zbuild-std --target x86_64-unknown-linux-gnu -p vmon --target-dir "$H/target/tsan"
+# Miri build of the no-rayon harness (quick leg of C15): compiles the dependency graph for the interpreter once
+MIRIFLAGS="-Zmiri-disable-isolation" step cargo +nightly miri run --offline -q -p vmon --no-default-features --features b_ibig --target-dir "$H/target/miri_norayon" -- noop
 exit $rc
